@@ -32,6 +32,13 @@ class Line:
         self.pieces = [Opaque("piece %d of line %d" % (m, j)) for m in range(npieces)]
         self.tpieces = [Opaque("trimmed piece %d of line %d" % (m, j)) for m in range(npieces)]
         self.pids = [sem.sym_int("l%d_p%d" % (j, m), "isize", 0, 9) for m in range(npieces)]
+        # identity of the UNtrimmed pieces: equal raw text has equal trimmed text, not the other way round
+        self.rpids = [sem.sym_int("l%d_rp%d" % (j, m), "isize", 0, 19) for m in range(npieces)]
+        # the line trimmed BEFORE its comment is cut off (an order the code may choose): what is left of the comment may end in blanks
+        self.trimmed_first = Opaque("line %d trimmed, comment still on" % j)
+        self.tf_nocomment = Opaque("line %d trimmed, then cut at the comment" % j)
+        self.ws_before_cmt = "l%d_wsc" % j
+        sem.decls.append("(declare-const %s Bool)" % self.ws_before_cmt)
         self.header = "(and %s %s)" % (self.sw, self.ew)
         # where the pieces of the line sit in the input (byte offsets): needed by calc_span's pointer arithmetic
         iv = lambda n: sem.sym_int("l%d_%s" % (j, n), "usize", 0, 10 ** 6)
@@ -79,6 +86,7 @@ def m_part(run, scr, nat):
         geom = [(input_tok, "0", input_len)]
         for l in L:
             geom += [(l.raw, l.off, l.rawlen), (l.nocomment, l.off, l.nclen), (l.trimmed, l.toff, l.len), (l.name, "(+ %s 1)" % l.toff, "(- %s 2)" % l.len)]
+            geom += [(l.trimmed_first, l.toff, "(- (+ %s %s) %s)" % (l.off, l.rawlen, l.toff)), (l.tf_nocomment, l.toff, "(- (+ %s %s) %s)" % (l.off, l.nclen, l.toff))]
             geom += [(l.pieces[m], l.poff[m], l.plen[m]) for m in range(len(l.pieces))] + [(l.tpieces[m], l.tpoff[m], l.tplen[m]) for m in range(len(l.pieces))]
             # lines follow each other, separated by a line terminator, inside the input (the last one may end the input)
             sem.decls.append("(assert (>= %s %s))" % (l.off, "0" if l.j == 0 else "(+ %s %s 1)" % (L[l.j - 1].off, L[l.j - 1].rawlen)))
@@ -89,6 +97,12 @@ def m_part(run, scr, nat):
                 if t is tok:
                     return o_, n_
             raise mir.Unsupported("no position known for %r" % (tok,))
+
+        allp = [(l, m) for l in L for m in range(len(l.pieces))]
+        for (a_, ma) in allp:
+            for (b_, mb) in allp:
+                if (a_.j, ma) < (b_.j, mb):
+                    sem.decls.append("(assert (=> (= %s %s) (= %s %s)))" % (a_.rpids[ma], b_.rpids[mb], a_.pids[ma], b_.pids[mb]))
 
         def line_of(tok, kinds=("raw", "nocomment", "trimmed")):
             for l in L:
@@ -105,6 +119,9 @@ def m_part(run, scr, nat):
                 for m, t in enumerate(l.tpieces):
                     if t is tok:
                         return l.pids[m]
+                for m, t in enumerate(l.pieces):
+                    if t is tok:
+                        return "(+ 100 %s)" % l.rpids[m]       # raw pieces live in their own identity space
             raise mir.Unsupported("identity of %r" % (tok,))
 
         def need(l, what):
@@ -116,8 +133,34 @@ def m_part(run, scr, nat):
             return it.deref(x, it.cur_env) if not isinstance(x, (Opaque, SV, Agg, Enum, VecVal, MapVal)) else x
 
         def m_split_once(it_, a, c_):
-            l = need(line_of(v(a[0]), ("raw",)), "split_once")
-            return models.mk_option(it_, SV("isize", l.cmt_tag), Agg("tuple", {"0": l.nocomment, "1": Opaque("comment of line %d" % l.j)}))
+            tok = v(a[0])
+            l = line_of(tok, ("raw",))
+            if l is not None:
+                return models.mk_option(it_, SV("isize", l.cmt_tag), Agg("tuple", {"0": l.nocomment, "1": Opaque("comment of line %d" % l.j)}))
+            l = need(line_of(tok, ("trimmed_first",)), "split_once")
+            return models.mk_option(it_, SV("isize", l.cmt_tag), Agg("tuple", {"0": l.tf_nocomment, "1": Opaque("comment of line %d" % l.j)}))
+
+        def m_trim_ascii(it_, a, c_):
+            tok = v(a[0])
+            l = line_of(tok, ("nocomment",))
+            if l is not None:
+                return l.trimmed                 # comment cut first, then trimmed: the documented reading
+            l = line_of(tok, ("raw",))
+            if l is not None:
+                # trimming the raw line: the same as the documented reading when there is no comment
+                return [(["(= %s 0)" % l.cmt], l.trimmed, "return", None), (["(= %s 1)" % l.cmt], l.trimmed_first, "return", None)]
+            l = need(line_of(tok, ("tf_nocomment", "trimmed_first")), "trim_ascii")
+            return l.trimmed
+
+        def facts(tok):
+            """(line, starts-with-[ , ends-with-] , empty) of a candidate 'line' string"""
+            l = line_of(tok, ("trimmed",))
+            if l is not None:
+                return l, l.sw, l.ew, l.empty
+            l = need(line_of(tok, ("tf_nocomment", "trimmed_first")), "line test")
+            # cut at the comment but not trimmed again: blanks before the comment are still there
+            blank = "(and %s %s)" % (l.empty, "true")
+            return l, l.sw, "(and %s (not %s))" % (l.ew, l.ws_before_cmt), "(and %s (not %s))" % (l.empty, l.ws_before_cmt)
 
         def m_index_range(it_, a, c_):
             l = need(line_of(v(a[0]), ("trimmed",)), "slice")
@@ -161,14 +204,14 @@ def m_part(run, scr, nat):
             r"^<std::str::Lines<'_> as IntoIterator>::into_iter$": models.m_identity,
             r"^<std::str::Lines<'_> as Iterator>::next$": models.m_iter_next,
             r"^core::str::<impl str>::split_once::<&str>$": m_split_once,
-            r"^core::str::<impl str>::trim_ascii$": lambda it_, a, c_: need(line_of(v(a[0]), ("raw", "nocomment")), "trim_ascii").trimmed,
-            r"^core::str::<impl str>::starts_with::<char>$": lambda it_, a, c_: SV("bool", need(line_of(v(a[0]), ("trimmed",)), "starts_with").sw),
-            r"^core::str::<impl str>::ends_with::<char>$": lambda it_, a, c_: SV("bool", need(line_of(v(a[0]), ("trimmed",)), "ends_with").ew),
+            r"^core::str::<impl str>::trim_ascii$": m_trim_ascii,
+            r"^core::str::<impl str>::starts_with::<char>$": lambda it_, a, c_: SV("bool", facts(v(a[0]))[1]),
+            r"^core::str::<impl str>::ends_with::<char>$": lambda it_, a, c_: SV("bool", facts(v(a[0]))[2]),
             r"^core::str::<impl str>::len$": lambda it_, a, c_: SV("usize", sem.define("Int", geometry(v(a[0]))[1], "len")),
             r"^core::str::<impl str>::as_ptr$": lambda it_, a, c_: SV("usize", sem.define("Int", "(+ %s %s)" % (base, geometry(v(a[0]))[0]), "ptr")),
             r"^std::ptr::const_ptr::<impl \*const u8>::add$": lambda it_, a, c_: SV("usize", "(+ %s %s)" % (a[0].expr, a[1].expr)),
             r"^std::ptr::const_ptr::<impl \*const u8>::offset_from$": lambda it_, a, c_: SV("isize", "(- %s %s)" % (a[0].expr, a[1].expr)),
-            r"^core::str::<impl str>::is_empty$": lambda it_, a, c_: SV("bool", need(line_of(v(a[0]), ("trimmed",)), "is_empty").empty),
+            r"^core::str::<impl str>::is_empty$": lambda it_, a, c_: SV("bool", facts(v(a[0]))[3]),
             r"^<str as (std::ops::)?Index<(std::ops::)?Range<usize>>>::index$": m_index_range,
             r"^core::str::<impl str>::contains::<char>$": lambda it_, a, c_: SV("bool", [l for l in L if l.name is v(a[0])][0].bar),
             r"^core::str::<impl str>::split::<char>$": lambda it_, a, c_: models.IterVal(list(need(line_of(v(a[0]), ("trimmed",)), "split").pieces)),
@@ -214,6 +257,21 @@ def m_part(run, scr, nat):
                 err = res.variants["Err"].fields["0"]
                 en = enames[int(err.discr.expr)] if isinstance(err, Enum) and re.match(r"^\d+$", err.discr.expr) else None
                 want = {"Parse": c08_disj([first_is_ingredient, bad_name]), "DuplicateCategory": dup_cat, "DuplicateIngredient": dup_ing}.get(en, "false")
+                # every span carried by the error lies inside the input
+                spans = []
+
+                def collect(v_, depth=0):
+                    if isinstance(v_, Agg) and v_.ty == "Span":
+                        spans.append(v_)
+                    elif isinstance(v_, (Agg, Enum)) and depth < 4:
+                        for sub in (v_.fields.values() if isinstance(v_, Agg) else v_.variants.values()):
+                            collect(sub, depth + 1)
+                collect(err)
+                inside = c08.conj(["(and (<= %s %s) (<= %s %s))" % (sp.fields["0"].expr, sp.fields["1"].expr, sp.fields["1"].expr, input_len) for sp in spans
+                                   if isinstance(sp.fields.get("0"), SV) and isinstance(sp.fields.get("1"), SV)])
+                want_n = {"Parse": 1, "DuplicateCategory": 2, "DuplicateIngredient": 2}.get(en, 0)
+                items.append(("%s path[%s]: the spans of the error (%d) lie inside the input, start <= end" % (tag, p, want_n), pcs +
+                              ["(not %s)" % inside if len(spans) == want_n else "true"], "unsat"))
                 items.append(("%s path[%s]: a file is refused only for a documented defect, and with the error that names it "
                               "(ingredient before any category / `|` in a category name | duplicate category | duplicate ingredient name)" % (tag, p),
                               pcs + ["(not %s)" % want], "unsat"))
@@ -321,6 +379,8 @@ def aisle_vectors(run, nat):
         r = nat.call("aisle", text.replace("\n", "\\n"))
         run.traces_validated += 1
         got = r.get("error_kind") if isinstance(r, dict) and r.get("error_kind") else (r.get("categories") if isinstance(r, dict) else None)
+        if isinstance(r, dict) and r.get("error_kind") and r.get("span_ok") is False:
+            return "aisle::parse(%r): the spans %r of the %s error do not lie inside the input / on the offending text" % (text, r.get("spans"), r.get("error_kind"))
         if not isinstance(r, dict) or r.get("panic") or "error" in r or got != want:
             return "aisle::parse(%r) = %r, documented: %r" % (text, r if not isinstance(r, dict) or "error" in r or r.get("panic") else got, want)
     return None
@@ -340,7 +400,7 @@ def check(run):
     if bad and not run.violations:
         run.violation("validation-vector aisle", bad, dict(engine="validation-vector", replay="aisle"))
     run.not_covered += [
-        "the write -> parse round trip (io::Write formatting), AisleConf::ingredients_info / the reverse lookup, the spans carried by the errors",
+        "the write -> parse round trip (io::Write formatting), AisleConf::ingredients_info / the reverse lookup",
         "the str primitives themselves (they are std) and files of more than 4 lines / 2 names per line",
     ]
 
